@@ -32,9 +32,9 @@ CLAIMED = {
     'C05': ('6 C05', 'StreamMech refines StreamIdeal (TLC); every arrival partition x close timing x idle polls x stream kinds driven through the real StreamingDecoder, each poll judged by the ideal layer (Trace_Stream); every read/seek/mark of the K3 executions judged by the read protocol (Trace_Mech)'),
     'C08': ('6 C08', 'all short strings over a structural alphabet + single mutations of valid encodings; status class and step bound judged by Trace_Clean; dispatch state machine spec/DecoderSM.tla model-checked (acyclic, terminating) and the decoder\'s own transitions + stream positions, recorded through the PYASN1_VERIF_TRACE hook, validated by Trace_DecoderSM'),
     'C04': ('6 C04', 'construction histories (assignment orders, explicit/implicit DEFAULTs, decode of every reference form, clones, read-only uses) of one abstract value: DER/CER equal across histories and equal to the reference DER; decode/re-encode fixpoint'),
-    'C10': ('6 C10', 'every input a guided decoder accepts (neighbour-type encodings and mutations) judged by the independent well-typedness evaluator spec/WellTyped.tla, then re-encode/re-decode fixpoint'),
+    'C10': ('6 C10', 'every input a guided decoder accepts (neighbour-type encodings and mutations) judged by the independent well-typedness evaluator spec/WellTyped.tla, then re-encode/re-decode fixpoint; every case of the generator machine spec/CompCons.tla (WITH COMPONENTS, SIZE under and/or/not) decoded under the constrained type and compared with the denotation'),
     'C12': ('6 C12', 'Session.tla (interleavings of suspended decoders, one-shot calls, debug switch) model-checked; recorded interleavings on one shared schema object, snapshots around every call, outcomes vs isolated runs, debug on, threads (sampled), judged by Trace_Session'),
-    'C14': ('6 C14', 'generator machine spec/Constraint.tla: every (expression tree, candidate), derivation chain and value-producing operation state replayed into pyasn1 and compared with the set-theoretic verdict; operator-history and construction machines of the scalar types (spec/BitStr.tla, Oid.tla, ScalarObj.tla, CharStr.tla, NamedVals.tla, RealObj.tla) replayed observable by observable'),
+    'C14': ('6 C14', 'generator machine spec/Constraint.tla: every (expression tree, candidate), derivation chain and value-producing operation state replayed into pyasn1 and compared with the set-theoretic verdict; operator-history and construction machines of the scalar types (spec/BitStr.tla, Oid.tla, ScalarObj.tla, CharStr.tla, NamedVals.tla, RealObj.tla) replayed observable by observable; constraints of constructed types (spec/CompCons.tla: component presence/absence, SIZE of SEQUENCE OF) replayed into the constraint call, isInconsistent and the five encoders'),
     'C17': ('6 C17', 'native round trip judged by Norm equality; Python-value+schema encodings compared octet for octet with value-object encodings'),
     'C18': ('6 C18', 'open-type matrix (container x field x tagging x governor x inner type x maps x codec x resolution) judged by JudgeOpen against the reference encoding of the inner value'),
     'C19': ('6 C19', 'object machines of spec/Container.tla (list / dict / at-most-one) as trace acceptor over all operation sequences of length 3 + random longer ones on real SEQUENCE OF (incl. slice reads/assignments), SEQUENCE, SET (incl. tag-addressed access) and CHOICE objects; named deviation F18 modelled exactly'),
